@@ -15,7 +15,7 @@ from ..cfg import CFG
 from ..core import AnalysisError, Repo, Report, call_name, calls_in, kwarg, norm, parents_map, walk_local
 from ..dataflow import DefUse
 from ..sites import guard_chain
-from .util import canon, cguards, dict_of
+from .util import canon, cguards, cguards_any, dict_of
 
 
 def _branch(f, test_substr: str):
@@ -73,10 +73,10 @@ def run(repo: Repo, rep: Report, tier: str) -> None:
     PL = "self.plan.get_placement(signal_ref.source_id).properties"
     ok = d.get("left_signal") == f"{PL}.get('left_operand')" and d.get("comparator") == f"{PL}.get('operation')" and d.get("right_constant") == f"{PL}.get('right_operand')"
     rep.check(ok, "C06-R2", "comparison_data = (left_operand, operation, right_operand) of the decider, unchanged", str({k: v[-30:] for k, v in d.items()}), tic.loc(ret[0]))
-    gs = cguards(tic, ret[0])
-    ok_shape = any(f"isinstance({PL}.get('right_operand'), int) and {PL}.get('output_value') == 1" in g and not pol for g, pol in gs)
+    gs = cguards_any(tic, ret[0])
+    ok_shape = any(g == f"isinstance({PL}.get('right_operand'), int) and {PL}.get('output_value') == 1" and pol for g, pol in gs)
     ok_type = any(".entity_type != 'decider-combinator'" in g and not pol for g, pol in gs)
-    rep.check(ok_shape and ok_type, "C06-R2", "only `signal CMP int -> 1` single-condition deciders are inlined", "; ".join(("not " if not p else "") + g[-90:] for g, p in gs), tic.loc())
+    rep.check(ok_shape and ok_type, "C06-R2", "only `signal CMP int -> 1` single-condition deciders are inlined", "; ".join(("not " if not p else "") + g[-90:] for g, p in cguards(tic, ret[0])), tic.loc())
     uses_usage = any("self.signal_usage.get(signal_ref.source_id)" in g and "'consumers'" in g and "> 1" in g and not pol for g, pol in gs)
     rep.check(uses_usage, "C06-R2", "the decider is inlined (and removed) only when the complete consumer set has a single member",
               "guarded by the usage index (consumers)" if uses_usage else
@@ -89,7 +89,7 @@ def run(repo: Repo, rep: Report, tier: str) -> None:
     pmw = parents_map(pw.node)
     rm = [n for n in walk_local(pw.node) if isinstance(n, ast.Assign) and "source_node_id_to_remove" in norm(n.targets[0])]
     cpw = canon(pw)
-    ok = bool(rm) and cpw.text(rm[0].value) == "op.value.source_id" and any(t == "self._try_inline_comparison(op.value)" and pol for t, pol in cguards(pw, rm[0]))
+    ok = bool(rm) and cpw.text(rm[0].value) == "op.value.source_id" and any(t == "self._try_inline_comparison(op.value)" and pol for t, pol in cguards_any(pw, rm[0]))
     rep.check(ok and len(rm) == 1, "C06-R2", "removal of the decider is scheduled only on the inlined path, for that decider", norm(rm[0]) if rm else "", pw.loc(rm[0]) if rm else pw.loc())
     resink = [c for c in calls_in(pw.node, "_add_signal_sink") if cpw.text(c.args[0]) == "self._ir_nodes.get(op.value.source_id).left"]
     ok = bool(resink) and norm(resink[0].args[1]) == "op.entity_id" and any(call_name(c) == "remove_sink" for c in calls_in(pw.node))
